@@ -136,7 +136,7 @@ def _widths():
 
 def window_cases():
     orders = st.one_of(st.integers(2, 8), st.integers(3, 8), st.integers(1, 8))
-    peaks = st.one_of(floats(0.05, 0.98), floats(0.5, 0.98), st.sampled_from([0.5, 0.75, 0.9, 0.25, 0.95]))
+    peaks = st.one_of(floats(0.05, 0.98), floats(0.5, 0.98), st.sampled_from([0.5, 0.75, 0.9, 0.25, 0.95, 0.0, 0.0]))  # (0: maximum at the first sample)
 
     def build(alias, width, order, peak, prior, reassign):
         if alias != "gamma":
